@@ -15,7 +15,7 @@ Fast == {"BLAKE2B", "SHA512"}
 
 (* all entries except TIMESTAMP, per logical Manifest *)
 Semantic(s) ==
-    UNION { { <<MfAt(s, mp).lp, e.tag, e.p, e.size, e.ck>> : e \in { x \in Ents(MfAt(s, mp)) : x.tag # "TIMESTAMP" } }
+    UNION { { <<MfAt(s, mp).lp, e.tag, e.p, e.size, e.hx>> : e \in { x \in Ents(MfAt(s, mp)) : x.tag # "TIMESTAMP" } }
             : mp \in { q \in MfPaths(s) : MfAt(s, q).reg } }
 
 Clauses(r) ==
